@@ -361,7 +361,7 @@ class MultiDict(TypeConversionDict[K, V]):
             if multi:
                 for value in values:
                     yield key, value
-            else:
+            elif values:
                 yield key, values[0]
 
     def lists(self) -> cabc.Iterable[tuple[K, list[V]]]:
@@ -377,7 +377,8 @@ class MultiDict(TypeConversionDict[K, V]):
         values: list[V]
 
         for values in super().values():  # type: ignore[assignment]
-            yield values[0]
+            if values:
+                yield values[0]
 
     def listvalues(self) -> cabc.Iterable[list[V]]:
         """Return an iterator of all values associated with a key.  Zipping
